@@ -1,7 +1,7 @@
 """Entry point:  python3 -m pkv.main <ID> [quick|thorough] [--replay FILE]"""
 import json, os, sys, traceback
 from .common import Report, VERIF
-from .facts import extract, FactError, REPO, FLAVOURS, extra_flavours, stable_lints, toolchain_skew
+from .facts import extract, FactError, REPO, FLAVOURS, extra_flavours, stable_lints, toolchain_skew, build_time_inputs
 from .extract import Ctx
 from .mirtab import Undecided
 from . import rules_scancode as RS
@@ -127,6 +127,45 @@ RULES = {
 }
 
 
+def shadow_hazards(facts):
+    """A trait method that a downstream `value.method(..)` call binds to *instead of* the inherent method of the same
+    name: method probing tries `&T` receivers (inherent, then trait methods) before `&mut T`, so a trait implemented for
+    `&T` (or `T`) whose method takes `self` hides an inherent `&mut self` method as soon as the trait is in scope."""
+    inherent = {}
+    for f in facts['fns']:
+        st = f.get('impl_self') or {}
+        if st.get('k') == 'adt' and not f.get('impl_trait') and f['vis'] == 'pub' and f.get('inputs'):
+            first = f['inputs'][0]
+            kind = 'refmut' if first.get('k') == 'ref' and first.get('mut') else ('ref' if first.get('k') == 'ref' else 'value')
+            inherent.setdefault(st['path'], {})[f['name']] = kind
+    out = []
+    for f in facts['fns']:
+        tr = f.get('impl_trait')
+        st = f.get('impl_self') or {}
+        if not tr or f.get('derived') or tr.startswith('core::'):
+            continue
+        level = 0
+        base = st
+        while base.get('k') == 'ref':
+            base = base['to']; level += 1
+        if base.get('k') != 'adt':
+            continue
+        ik = inherent.get(base['path'], {}).get(f['name'])
+        if ik is None:
+            continue
+        # the trait method is found first if it is applicable at an earlier probing step than the inherent one
+        first = (f.get('inputs') or [{}])[0]
+        takes = 'refmut' if first.get('k') == 'ref' and first.get('mut') and level == 0 else ('ref' if first.get('k') == 'ref' and level == 0 else 'value')
+        trait_step = {('value', 0): 0, ('ref', 0): 1, ('value', 1): 1, ('refmut', 0): 2}.get((takes, level), 3)
+        inherent_step = {'value': 0, 'ref': 1, 'refmut': 2}[ik]
+        if trait_step < inherent_step:
+            out.append(('%s::%s hidden by %s' % (base['path'].split('::')[-1], f['name'], tr.split('::')[-1]),
+                        'trait %s is implemented for %s%s with a method `%s` that method resolution prefers over the inherent '
+                        '`%s::%s` (which takes `&mut self`) whenever the trait is in scope: callers of the documented API silently run '
+                        'different code (%s); fails closed' % (tr, '&' * level, base['path'], f['name'], base['path'], f['name'], f['sp'])))
+    return out
+
+
 def mutation_adequacy(prop, fn):
     """Thorough tier, non-gating meta-evidence (DESIGN 3.7 iii): apply each stored mutant of this property
     to a scratch COPY of /repo's working tree, re-extract, re-run the rule, record whether it fires."""
@@ -193,6 +232,12 @@ def run(prop, tier):
         rep.finding('BUILD-CFG conditional compilation on %s' % ','.join(sorted(set(unsupported))),
                     'the crate compiles different code depending on %s, which this host analysis cannot vary: a verdict about the analysed '
                     'configuration does not carry over to the others; fails closed' % sorted(set(unsupported)))
+    try:
+        for b in build_time_inputs(REPO):
+            rep.finding('BUILD-ENV ' + b[:100], 'what is compiled depends on something outside the crate\'s sources and flags (%s), which the '
+                                                'analysed compilation need not share with the users\'; fails closed' % b)
+    except Exception as e:
+        rep.note('build-time input scan skipped: %r' % (e,))
     # the users' toolchain is stable, the analysed MIR comes from nightly: names that resolve differently are flagged by rustc
     try:
         hits, _rc = stable_lints(REPO)
@@ -227,12 +272,14 @@ def run(prop, tier):
                 rep.finding('BUILD-LINK fixed-name symbols %s' % ','.join(sorted(linked))[:120],
                             'functions %s are exported under fixed symbol names (no_mangle / export_name / link_section): they can replace '
                             'compiler or runtime support routines at link time, which no MIR-level analysis sees; fails closed' % sorted(linked))
+            for hz in shadow_hazards(facts):
+                rep.finding('API-SHADOW ' + hz[0], hz[1])
             if facts.get('_build_script'):
                 rep.finding('BUILD-ENV build script', 'the crate now has a build script: what is compiled can depend on the build environment '
                                                       '(cfg flags, generated code) in ways the extracted facts do not show; fails closed')
-            probes = [e['var'] for e in facts.get('env_reads', []) if not e['var'].startswith('CARGO_')]
+            probes = [e['var'] for e in facts.get('env_reads', []) if not (e['var'].startswith('CARGO_PKG_') or e['var'] == 'CARGO_CRATE_NAME')]
             if probes:
-                rep.finding('BUILD-ENV compile-time dependence on %s' % ','.join(sorted(probes)),
+                rep.finding('BUILD-ENV compile-time dependence on %s' % ','.join(sorted(set(probes))),
                             'the crate reads build-time environment variable(s) %s (env!/option_env!): what is compiled depends on the '
                             'environment of the build, so a verdict about this compilation does not carry over to other builds; fails closed' % sorted(probes))
             fn(ctx, rep, tier)
